@@ -437,6 +437,94 @@ Section Const.
     pose proof (den_stmt_det _ _ _ _ _ _ _ _ E1 E2) as X. congruence.
   Qed.
 
+  (* ---- with a counter-free oracle the denotation does not depend on the query counter ---- *)
+  Lemma den_decide_const : forall e q b d q1,
+      den_decide orc e q = Ok (b, d, q1) -> forall q2, exists q2', den_decide orc e q2 = Ok (b, d, q2').
+  Proof.
+    intros e q b d q1 H q2. unfold den_decide in *.
+    destruct (decide expected_ops orc e q) as [[b0 k]| | |] eqn:E; try discriminate. inv H.
+    destruct (decide_const _ _ _ _ _ E q2) as (k2 & E2). rewrite E2. eexists; reflexivity.
+  Qed.
+
+  Lemma den_limit_const : forall lim q n d q1,
+      den_limit orc lim q = Ok (n, d, q1) -> forall q2, exists q2', den_limit orc lim q2 = Ok (n, d, q2').
+  Proof.
+    intros lim q n d q1 H q2. destruct lim as [k|v p]; cbn [den_limit] in *.
+    - inv H. eexists; reflexivity.
+    - rewrite (orc_const q2 q). destruct (orc q v) as [x|]; [|discriminate].
+      destruct (resolve x p) as [[qq| | |]| | |]; try discriminate.
+      destruct (Pos.eqb (Qden qq) 1); [|discriminate]. inv H. eexists; reflexivity.
+  Qed.
+
+  Lemma den_const : forall f,
+      (forall ie s q D q', den_stmt orc f ie s q = Ok (D, q') ->
+                           forall q2, exists q2', den_stmt orc f ie s q2 = Ok (D, q2')) /\
+      (forall ie ss i q D q', den_block orc f ie ss i q = Ok (D, q') ->
+                              forall q2, exists q2', den_block orc f ie ss i q2 = Ok (D, q2')) /\
+      (forall l q D q', den_list orc f l q = Ok (D, q') ->
+                        forall q2, exists q2', den_list orc f l q2 = Ok (D, q2')) /\
+      (forall ie s k q D q', den_loop orc f ie s k q = Ok (D, q') ->
+                             forall q2, exists q2', den_loop orc f ie s k q2 = Ok (D, q2')).
+  Proof.
+    induction f as [|f IH]; [split; [|split; [|split]]; intros; discriminate|].
+    destruct IH as (IHs & IHb & IHl & IHt).
+    split; [|split; [|split]].
+    - intros ie s q D q' H q2. rewrite den_stmt_S in H. rewrite den_stmt_S.
+      destruct s as [n at_ ins|t at_ ins body|bs|e p fl|e b|v lim b|v lim c].
+      + inv H. eexists; reflexivity.
+      + destruct (den_block orc f [] body 0 q) as [[evs q1]| | |] eqn:E; cbn [rbind] in H; try discriminate.
+        inv H. destruct (IHb _ _ _ _ _ _ E q2) as (k & E'). rewrite E'. cbn [rbind]. eexists; reflexivity.
+      + eapply IHl; eassumption.
+      + destruct (den_decide orc e q) as [[[b d] q1]| | |] eqn:E0; cbn [rbind] in H; try discriminate.
+        destruct (den_block orc f ie (if b then p else fl) 0 q1) as [[evs q3]| | |] eqn:E; cbn [rbind] in H; try discriminate.
+        inv H. destruct (den_decide_const _ _ _ _ _ E0 q2) as (k0 & E0'). rewrite E0'. cbn [rbind].
+        destruct (IHb _ _ _ _ _ _ E k0) as (k & E'). rewrite E'. cbn [rbind]. eexists; reflexivity.
+      + eapply IHt; eassumption.
+      + eapply IHt; eassumption.
+      + destruct (den_limit orc lim q) as [[[n d] q1]| | |] eqn:E0; cbn [rbind] in H; try discriminate.
+        destruct (den_list orc f (insts ie v c (Z.to_nat n)) q1) as [[evs q3]| | |] eqn:E; cbn [rbind] in H; try discriminate.
+        inv H. destruct (den_limit_const _ _ _ _ _ E0 q2) as (k0 & E0'). rewrite E0'. cbn [rbind].
+        destruct (IHl _ _ _ _ E k0) as (k & E'). rewrite E'. cbn [rbind]. eexists; reflexivity.
+    - intros ie ss i q D q' H q2. rewrite den_block_S in H. rewrite den_block_S.
+      destruct (nth_error ss i) as [s1|]; [|inv H; eexists; reflexivity].
+      destruct (den_stmt orc f ie s1 q) as [[e1 q1]| | |] eqn:E1; cbn [rbind] in H; try discriminate.
+      destruct (den_block orc f ie ss (S i) q1) as [[e2 q3]| | |] eqn:E2; cbn [rbind] in H; try discriminate.
+      inv H. destruct (IHs _ _ _ _ _ E1 q2) as (k1 & E1'). rewrite E1'. cbn [rbind].
+      destruct (IHb _ _ _ _ _ _ E2 k1) as (k2 & E2'). rewrite E2'. cbn [rbind]. eexists; reflexivity.
+    - intros l q D q' H q2. rewrite den_list_S in H. rewrite den_list_S.
+      destruct l as [|[ie b] rr]; [inv H; eexists; reflexivity|].
+      destruct (den_stmt orc f ie b q) as [[e1 q1]| | |] eqn:E1; cbn [rbind] in H; try discriminate.
+      destruct (den_list orc f rr q1) as [[e2 q3]| | |] eqn:E2; cbn [rbind] in H; try discriminate.
+      inv H. destruct (IHs _ _ _ _ _ E1 q2) as (k1 & E1'). rewrite E1'. cbn [rbind].
+      destruct (IHl _ _ _ _ E2 k1) as (k2 & E2'). rewrite E2'. cbn [rbind]. eexists; reflexivity.
+    - intros ie s k q D q' H q2. rewrite den_loop_S in H. rewrite den_loop_S.
+      destruct s as [n at_ ins|t at_ ins body|bs|e p fl|e b|v lim b|v lim c]; try discriminate.
+      + destruct (den_decide orc e q) as [[[bb d] q1]| | |] eqn:E0; cbn [rbind] in H; try discriminate.
+        destruct (den_decide_const _ _ _ _ _ E0 q2) as (k0 & E0'). rewrite E0'. cbn [rbind].
+        destruct bb; [|inv H; eexists; reflexivity].
+        destruct (den_block orc f ie b 0 q1) as [[e1 q3]| | |] eqn:E1; cbn [rbind] in H; try discriminate.
+        destruct (den_loop orc f ie (XWhile e b) (S k) q3) as [[e2 q4]| | |] eqn:E2; cbn [rbind] in H; try discriminate.
+        inv H. destruct (IHb _ _ _ _ _ _ E1 k0) as (k1 & E1'). rewrite E1'. cbn [rbind].
+        destruct (IHt _ _ _ _ _ _ E2 k1) as (k2 & E2'). rewrite E2'. cbn [rbind]. eexists; reflexivity.
+      + destruct (den_limit orc lim q) as [[[n d] q1]| | |] eqn:E0; cbn [rbind] in H; try discriminate.
+        destruct (den_limit_const _ _ _ _ _ E0 q2) as (k0 & E0'). rewrite E0'. cbn [rbind].
+        destruct (Z.of_nat k <? n)%Z; [|inv H; eexists; reflexivity].
+        destruct (den_block orc f ((v, k) :: ie) b 0 q1) as [[e1 q3]| | |] eqn:E1; cbn [rbind] in H; try discriminate.
+        destruct (den_loop orc f ie (XCount v lim b) (S k) q3) as [[e2 q4]| | |] eqn:E2; cbn [rbind] in H; try discriminate.
+        inv H. destruct (IHb _ _ _ _ _ _ E1 k0) as (k1 & E1'). rewrite E1'. cbn [rbind].
+        destruct (IHt _ _ _ _ _ _ E2 k1) as (k2 & E2'). rewrite E2'. cbn [rbind]. eexists; reflexivity.
+  Qed.
+
+  (* one successful evaluation, at any counter, gives the predicate *)
+  Lemma DS_of_den : forall F ie s q D q', den_stmt orc F ie s q = Ok (D, q') -> DS ie s D.
+  Proof. intros F ie s q D q' H. exists F. exact (proj1 (den_const F) _ _ _ _ _ H). Qed.
+  Lemma DB_of_den : forall F ie ss i q D q', den_block orc F ie ss i q = Ok (D, q') -> DB ie ss i D.
+  Proof. intros F ie ss i q D q' H. exists F. exact (proj1 (proj2 (den_const F)) _ _ _ _ _ _ H). Qed.
+  Lemma DL_of_den : forall F l q D q', den_list orc F l q = Ok (D, q') -> DL l D.
+  Proof. intros F l q D q' H. exists F. exact (proj1 (proj2 (proj2 (den_const F))) _ _ _ _ H). Qed.
+  Lemma DLoop_of_den : forall F ie s k q D q', den_loop orc F ie s k q = Ok (D, q') -> DLoop ie s k D.
+  Proof. intros F ie s k q D q' H. exists F. exact (proj2 (proj2 (proj2 (den_const F))) _ _ _ _ _ _ H). Qed.
+
   (* ================================================================================ *)
   (* 3. the residual denotation: the events still to come from a state                 *)
   (* ================================================================================ *)
